@@ -62,7 +62,7 @@ struct Model {
       case OP_CALL: return st.obj_alive[op.obj];
       case OP_DESTROY_MOCK: return st.obj_alive[op.obj];
       case OP_MOVE_MOCK: return op.obj >= 2 && op.k1 >= 2 && op.obj != op.k1 && st.obj_alive[op.obj] && !st.obj_alive[op.k1];
-      case OP_DESTROY_SEQ: case OP_MOVE_SEQ: return st.s[op.s1].alive;
+      case OP_DESTROY_SEQ: case OP_MOVE_SEQ: case OP_ASSIGN_SEQ: return st.s[op.s1].alive;
       case OP_NEW_WATCHED: return !st.wat_alive[op.obj];
       case OP_DELETE_WATCHED: return st.wat_alive[op.obj];
       case OP_COPY_WATCHED: case OP_MOVECONS_WATCHED: return st.wat_alive[op.obj] && !st.wat_alive[op.k1] && op.obj != op.k1;
@@ -363,18 +363,18 @@ struct Model {
         st.obj_alive[op.k1] = 1;
         break;
       }
-      case OP_DESTROY_SEQ: {
+      case OP_DESTROY_SEQ: case OP_ASSIGN_SEQ: {
         MSeq& s = st.s[op.s1];
         if (s.n > 0) {
           Report r; r.fatal = false; r.kind = R_SEQ_TEARDOWN; r.slot = -1; r.gen = st.repgen;
           std::ostringstream d; d << '[';
           for (int j = 0; j < s.n; ++j) d << (int)s.pend[j] << ',';
           d << ']'; r.detail = d.str(); o.reps.push_back(r);
-          s.alive = 0; s.n = 0; for (auto& p : s.pend) p = -1;
+          s.n = 0; for (auto& p : s.pend) p = -1;
           nonfatal_delivered(o);
         }
         for (auto& e : st.e) if (e.alive && in_seq(e, op.s1)) e.orphan |= (uint8_t)(1u << op.s1);
-        s.alive = 0; s.n = 0; for (auto& p : s.pend) p = -1;
+        s.alive = op.kind == OP_ASSIGN_SEQ; s.n = 0; for (auto& p : s.pend) p = -1;  // after assignment the name designates a fresh, empty sequence
         break;
       }
       case OP_MOVE_SEQ: break;
